@@ -14,7 +14,7 @@ use std::time::Duration;
 const HOSTILE: &[&str] = &[
     "", " ", " lead", "trail ", "a: b", "a #b", "- item", "? key", "~", "null", "Null", "true", "False", "yes", "no", "on", "off", "1e3", "0x1F", "0o17", "1_000", ".inf", "-.INF", ".nan", "123", "-0", "+1", "1.0", "'single'", "\"double\"",
     "a'b\"c", "line\nbreak", "tab\tin", "cr\rlf", "back\\slash", "{brace}", "[bracket]", "a, b", "&anchor", "*alias", "!tag", "|", ">", "%percent", "@at", "`tick`", "\u{85}nel", "\u{2028}ls", "\u{2029}ps", "\u{feff}bom", "é€語𝄞", "\u{0}nul", "\u{7f}del",
-    "2001-12-14", "12:30:45", "<<", "=", "key:", ":colon", "#hash", "a\u{a0}b", "very long long long long long long long long long long long long long long long long long long long long long",
+    "trail\n", "two\n\n", "\nlead", "a\nb ", "\n", " \n ", "x\r\n", "end\t", "\ttab", "a\n\nb\n", "keep\n ", "2001-12-14", "12:30:45", "<<", "=", "key:", ":colon", "#hash", "a\u{a0}b", "very long long long long long long long long long long long long long long long long long long long long long",
 ];
 
 fn hostile() -> impl Strategy<Value = String> {
